@@ -9,7 +9,7 @@ static VK_TD_ACTS: [&Action<'static, u8>; 3] = [&VK_TD_A0, &VK_TD_A1, &VK_TD_A2]
 fn vk_c17_lazy<const N: usize>() {
     let own: KCoord = (0, 0);
     let len: usize = kani::any();
-    kani::assume(len >= 1 && len <= 3); // tap-dance has at least one action (see C02 finding on the parser)
+    kani::assume(len <= 3); // the parser also accepts an EMPTY action list: `(tap-dance 200 ())`
     let actions: &'static [&'static Action<'static, u8>] = &VK_TD_ACTS[..len];
     let cfg_timeout: u16 = kani::any();
     let stored_taps: u16 = kani::any();
@@ -88,8 +88,12 @@ fn vk_c17_lazy<const N: usize>() {
         assert!(new_taps == expect_taps);
         if expect_fire {
             // exactly the action for the number of taps (the last one if the list is shorter)
-            let idx = core::cmp::min(expect_taps as usize, len) - 1;
-            assert!(w.tap as *const _ == VK_TD_ACTS[idx] as *const _);
+            if len == 0 {
+                assert!(w.tap as *const _ == &VK_NOOP as *const _, "an empty tap-dance acts as a no-op key");
+            } else {
+                let idx = core::cmp::min(expect_taps as usize, len) - 1;
+                assert!(w.tap as *const _ == VK_TD_ACTS[idx] as *const _);
+            }
             // queue afterwards: no own press; all but (taps-1) own releases; foreign events intact, in order
             let mut own_rel_left: u16 = 0;
             let mut fi = 0usize;
@@ -127,13 +131,14 @@ fn vk_c17_lazy<const N: usize>() {
     kani::cover!(ra.is_none() && !fast && new_taps > stored_taps, "counts a further tap and restarts the timeout");
     kani::cover!(ra.is_some() && new_taps as usize > len, "more taps than actions");
     kani::cover!(ra.is_some() && q.len() + 3 <= n, "evicts several own events");
+    kani::cover!(ra.is_some() && len == 0, "empty action list fires without crashing");
 }
 
-// @harness name=c17_k1_lazy prop=C17 tier=quick timeout=900
+// @harness name=c17_k1_lazy prop=C17,C02 tier=quick timeout=900
 // @encodes WaitingState::tick_wt (TapDance arm), WaitingState::handle_tap_dance, is_corresponding_press/release
-// @bounds queue <= 3 symbolic events over the dance key and one other key; 1..=3 actions; stored tap count 1..=5; all timing scalars unconstrained
-// @assumes action list non-empty (parser side: see C02); stored tap count >= 1 (set to 1 on creation, only grows)
-// @spec count = 1 + own presses before the first foreign press; fires (Tap) iff timeout-1 == 0, or a foreign press is queued, or count >= list length; chosen action = actions[min(count,len)-1]; afterwards the queue has no own press, all but count-1 own releases, and the foreign events unchanged and in order; timeout restarts iff the count grew
+// @bounds queue <= 3 symbolic events over the dance key and one other key; 0..=3 actions (the parser accepts an empty list); stored tap count 1..=5; all timing scalars unconstrained
+// @assumes stored tap count >= 1 (set to 1 on creation, only grows)
+// @spec count = 1 + own presses before the first foreign press; fires (Tap) iff timeout-1 == 0, or a foreign press is queued, or count >= list length; chosen action = actions[min(count,len)-1] (no-op for an empty list, never a crash); afterwards the queue has no own press, all but count-1 own releases, and the foreign events unchanged and in order; timeout restarts iff the count grew
 #[kani::proof]
 #[kani::unwind(5)]
 fn c17_k1_lazy() {
